@@ -21,7 +21,9 @@ VERIF = Path(__file__).resolve().parents[2]
 LEAN = VERIF / 'lean'
 REPO = Path(os.environ.get('AMISC_REPO', '/repo'))
 SRC = Path(os.environ.get('AMISC_SRC', str(REPO / 'src')))
-EVID = VERIF / 'evidence'
+# development-time runs against a patched COPY of the sources (AMISC_SRC: mutants, seeded changes) must never overwrite the committed
+# evidence of /repo itself: they write to replays/_evidence_scratch (ignored by git)
+EVID = VERIF / 'evidence' if SRC.resolve() == (REPO / 'src').resolve() else VERIF / 'replays' / '_evidence_scratch'
 REPLAYS = VERIF / 'replays'
 CORPUS = VERIF / 'corpus'
 ALLOWED_AXIOMS = {'propext', 'Classical.choice', 'Quot.sound'}
